@@ -259,12 +259,41 @@ def r5_placeholders(ctx, sym, mod):
                    "order")
     fn = mod.func('_name_regex')
     ctx.analysed_function(mod, fn)
-    pats = {}
-    for n in body_walk(fn):
-        if isinstance(n, ast.Assign) and isinstance(n.value, ast.Call) and call_name(n.value) == 're.compile':
-            pats[norm(n.targets[0])] = n.value.args[0].value
-    ctx.require(set(pats) == {'var_match', 'exp_match', 'wild_card'}, "_name_regex patterns changed: %s" % sorted(pats))
-    comp = {k: re.compile(v) for k, v in pats.items()}   # stdlib re on string literals
+    # _name_regex executed abstractly; re.compile/match are the stdlib's own, applied to the literals found in pedal
+    from ..fdeval import module_resolver
+
+    def re_compile(pattern, flags=0):
+        if not isinstance(pattern, str):
+            raise Inconclusive('re.compile of a non-literal')
+        rx = re.compile(pattern, flags)
+        o = Obj('pattern %r' % pattern)
+        o.attrs['method:match'] = lambda text: (Obj('match') if rx.match(text) else None)
+        o.attrs['method:fullmatch'] = lambda text: (Obj('match') if rx.fullmatch(text) else None)
+        o.attrs['method:search'] = lambda text: (Obj('match') if rx.search(text) else None)
+        return o
+    fd = FD(max_steps=10 ** 7, resolver=module_resolver(sym, mod))
+    fd.calls['re.compile'] = re_compile
+    fd.calls['re.match'] = lambda p, t, flags=0: (Obj('match') if re.match(p, t, flags) else None)
+    keys = {}
+    for k in ('_VAR', '_EXP', '_WILD'):
+        try:
+            keys[k] = sym.const(mod, ast.parse(k, mode='eval').body)
+        except KeyError:
+            raise AnalysisError("C10 R5: placeholder key %s is not a constant" % k)
+
+    class _Comp:
+        def __init__(self, key):
+            self.key = key
+
+        def match(self, text):
+            try:
+                res = fd.call_function(fn, [text])
+            except (Raised, Inconclusive) as e:
+                raise AnalysisError("C10 R5: _name_regex outside the decidable fragment: %s" % e)
+            if not isinstance(res, dict) or self.key not in res:
+                raise AnalysisError("C10 R5: _name_regex no longer returns the three placeholder classes")
+            return res[self.key]
+    comp = {'var_match': _Comp(keys['_VAR']), 'exp_match': _Comp(keys['_EXP']), 'wild_card': _Comp(keys['_WILD'])}
     import itertools
     alphabet = '_ab'
     n = 0
